@@ -128,6 +128,12 @@ func fragmentPrimaryBlock(pb PrimaryBlock, fragmentOffset, totalDataLength int) 
 		TotalDataLength:    uint64(totalDataLength),
 	}
 
+	// Fragments of a fragment stay relative to the original, unfragmented payload.
+	if pb.HasFragmentation() {
+		fragPb.FragmentOffset += pb.FragmentOffset
+		fragPb.TotalDataLength = pb.TotalDataLength
+	}
+
 	buff := new(bytes.Buffer)
 
 	err = fragPb.MarshalCbor(buff)
